@@ -26,7 +26,7 @@ import sys
 
 import numpy as np
 
-from mc.common import Check, Fail, SEED, THOROUGH, assert_overlay
+from mc.common import Check, Explorer, Fail, SEED, THOROUGH, assert_overlay, digest
 
 am = assert_overlay()
 from atomman.defect import (Stroh, IsotropicVolterraDislocation,          # noqa: E402
@@ -43,7 +43,9 @@ chk = Check('C12', 'exploration',
             'accepted by the solver (exactly degenerate orientations, e.g. hexagonal line || c, are refused by Stroh '
             'and counted separately); clauses covar (3 re-solved rotated problems per case), auto '
             '(solve_volterra_dislocation dispatch), mnforms (4 spellings of each Cartesian axis pair) and limit '
-            '(anisotropic -> isotropic) enumerate their own complete products')
+            '(anisotropic -> isotropic) enumerate their own complete products; scale: every case with the Burgers vector multiplied by 1e-10, 1e-5, 1e7 '
+            '(linearity); live-stroh / live-iso: explicit-state BFS (depth 3 quick / 4 thorough) over histories of solve(problem j) and reads of every '
+            'observable on ONE live solution object, states distinct by (problem last solved, byte-exact internal state), oracle = fresh object')
 chk.assumptions = [
     'finite differences: h = 1e-5*r, agreement 1e-7 absolute on O(1) fields (|b|<=2.3, max C = 2.1); truncation h^2 u\'\'\'/6 ~ 1e-11, rounding eps*u/h ~ 1e-11',
     'algebraic identities 1e-10 relative; quantities that pass through the class\'s own 1e-8 relative zeroing (K_tensor, burgers, C.transform) 3e-8 relative',
@@ -715,6 +717,132 @@ def limit(case):
     return fails
 
 
+
+# --------------------------------------------------------------------------
+# linearity in the Burgers vector: the statement quantifies over ALL Burgers vectors, so a vector given in metres
+# (1e-10) or in a huge unit must give the same solution scaled.  u, strain, stress are linear in b, preln quadratic,
+# K_tensor independent.
+
+SCALES = [1e-10, 1e-5, 1e7]
+
+
+@chk.clause('scale')
+def scale(case):
+    iso = case['solver'] == 'iso'
+    e = setup(case, iso)
+    try:
+        s1 = solve(case['solver'], e)
+    except ValueError:
+        return []
+    P = lab_points(e, GRID[:NPZ0:5])
+    u1, e1, g1 = s1.displacement(P), s1.strain(P), s1.stress(P)
+    fails = []
+    for lam in SCALES:
+        e2 = dict(e)
+        e2['b_in'] = np.asarray(e['b_in'], dtype=float) * lam
+        s2 = solve(case['solver'], e2)
+        chk.note('scaled-solutions')
+        if worst(s2.burgers - lam * s1.burgers) > 1e-12 * lam * np.abs(s1.burgers).max():
+            fails.append(Fail(key='scale-burgers', msg='.burgers of the problem with b*%g is not %g * .burgers' % (lam, lam),
+                              observed=s2.burgers, expected=lam * s1.burgers))
+            continue
+        for name, a, b in (('displacement', s2.displacement(P), u1), ('strain', s2.strain(P), e1), ('stress', s2.stress(P), g1)):
+            if worst(a - lam * b) > 1e-11 * lam * max(worst(b), 1e-300):
+                fails.append(Fail(key='scale-' + name, msg='%s is not linear in the Burgers vector (b scaled by %g)' % (name, lam),
+                                  err=worst(a - lam * b) / lam))
+        if worst(s2.K_tensor - s1.K_tensor) > 1e-12 * worst(s1.K_tensor):
+            fails.append(Fail(key='scale-K', msg='K_tensor depends on the length of the Burgers vector (b scaled by %g)' % lam))
+        if abs(s2.preln - lam * lam * s1.preln) > 1e-11 * lam * lam * abs(s1.preln):
+            fails.append(Fail(key='scale-preln', msg='preln is not quadratic in the Burgers vector (b scaled by %g)' % lam))
+        if fails:
+            break
+    return fails
+
+
+# --------------------------------------------------------------------------
+# explicit-state search over ONE live solution object: solve() may be called again on an existing object
+# (documented public method).  State = (problem last solved, byte-exact internal state of the real object); ops =
+# solve(problem j) for a menu of problems and reads of every observable; oracle = a fresh object built for the
+# problem last solved (the fresh-object values themselves are judged by the `fields` clause).
+
+LIVE = [{'mat': 0, 'ori': 0, 'b': 2, 'mn': 0}, {'mat': 3, 'ori': 2, 'b': 1, 'mn': 1}, {'mat': 0, 'ori': 2, 'b': 0, 'mn': 4}]
+LIVE_ISO = [{'mat': ISO_IDS[0], 'ori': 0, 'b': 2, 'mn': 0}, {'mat': ISO_IDS[1], 'ori': 2, 'b': 1, 'mn': 1}, {'mat': ISO_IDS[0], 'ori': 2, 'b': 0, 'mn': 4}]
+LIVE_READS = ['K_tensor', 'K_coeff', 'preln', 'burgers', 'transform', 'C', 'displacement', 'strain', 'stress', 'characterangle']
+_LIVE_P = None
+
+
+def _live_menu(kind):
+    return LIVE_ISO if kind == 'iso' else LIVE
+
+
+def _read(sol, what, e):
+    P = lab_points(e, GRID[:NPZ0:7])
+    if what in ('displacement', 'strain', 'stress'):
+        return np.asarray(getattr(sol, what)(P))
+    if what == 'characterangle':
+        return np.asarray(sol.characterangle())
+    if what == 'C':
+        return np.asarray(sol.C.Cij)
+    return np.asarray(getattr(sol, what))
+
+
+def _dump(o, depth=0):
+    if isinstance(o, np.ndarray):
+        return [str(o.dtype), list(o.shape), o.tobytes().hex()]
+    if hasattr(o, '__dict__') and depth < 3:
+        return {k: _dump(v, depth + 1) for k, v in sorted(vars(o).items())}
+    return repr(o)
+
+
+def make_live(kind):
+    menu = _live_menu(kind)
+    cache = {}
+
+    def env(j):
+        if j not in cache:
+            cache[j] = setup(dict(menu[j], solver=kind), kind == 'iso')
+        return cache[j]
+
+    def build(history):
+        sol = solve(kind, env(0))
+        cur = 0
+        fails = []
+        for step, op in enumerate(history):
+            if op['op'] == 'solve':
+                e = env(op['j'])
+                sol.solve(am.ElasticConstants(Cij=e['C6'].copy()), e['b_in'], **e['kw'])
+                cur = op['j']
+            else:
+                got = _read(sol, op['what'], env(cur))
+                exp = _read(solve(kind, env(cur)), op['what'], env(cur))
+                if got.shape != exp.shape or worst(got - exp) > 1e-12 * max(worst(exp), 1e-300):
+                    fails.append(Fail(key='%s-live-%s' % (kind, op['what']),
+                                      msg='%s read from a re-solved object differs from a fresh object for the same problem; history %s'
+                                      % (op['what'], [h['op'] + str(h.get('j', h.get('what'))) for h in history[:step + 1]])))
+        return {'sol': sol, 'cur': cur, 'fails': fails}
+
+    def ops(state):
+        return [{'op': 'solve', 'j': j} for j in range(len(menu))] + [{'op': 'read', 'what': w} for w in LIVE_READS]
+
+    def check(history, state):
+        if state['fails']:
+            return state['fails']
+        import copy
+        sol = copy.deepcopy(state['sol'])
+        e = env(state['cur'])
+        fresh = solve(kind, e)
+        for w in LIVE_READS + LIVE_READS[::-1]:
+            got, exp = _read(sol, w, e), _read(fresh, w, e)
+            if got.shape != exp.shape or worst(got - exp) > 1e-12 * max(worst(exp), 1e-300):
+                return [Fail(key='%s-live-state-%s' % (kind, w), msg='in the state reached by %s, %s differs from a fresh object for problem %d'
+                             % ([h['op'] + str(h.get('j', h.get('what'))) for h in history], w, state['cur']))]
+        return []
+
+    def canon(state):
+        return digest([state['cur'], _dump(state['sol'])])
+
+    return build, ops, check, canon
+
 def gen():
     nori = len(ORIENT)
     for mi in STROH_IDS + ISO_IDS:
@@ -728,6 +856,8 @@ def gen():
                     case = {'solver': solver, 'mat': mi, 'ori': oi, 'b': bi, 'mn': ki}
                     yield 'fields', case
                     yield 'covar', case
+                    if ki in (0, 3, 7) or THOROUGH:
+                        yield 'scale', case
                     if ki in (0, 6):
                         yield 'auto', {'mat': mi, 'ori': oi, 'b': bi, 'mn': ki}
     for mi in STROH_IDS + ISO_IDS:
@@ -773,8 +903,15 @@ def gen_all():
 
 
 if __name__ == '__main__':
+    live_cov = {}
+    for kind in ('stroh', 'iso'):
+        b_, o_, c_, k_ = make_live(kind)
+        live_cov[kind] = Explorer(chk, 'live-' + kind, b_, o_, c_, k_, max_depth=4 if THOROUGH else 3).run()
     chk.run_cases(gen_all(), batch=4)
-    cov = {'evaluations': chk.notes.get('points', 0),
+    cov = {'live_states': sum(v['states'] for v in live_cov.values()),
+           'live_transitions': sum(v['transitions'] for v in live_cov.values()),
+           'live_max_depth_completed': min(v['max_depth_completed'] for v in live_cov.values()),
+           'evaluations': chk.notes.get('points', 0),
            'distinct_nontrivial': chk.notes.get('solved', 0),
            'cases': sum(chk.counts.values()),
            'refused_degenerate': chk.notes.get('refused-degenerate', 0)}
